@@ -1,4 +1,5 @@
 import Minimq.World
+import Minimq.Reply
 /-
 Text forms shared by the driver: properties (PROTOCOL.md §1.2), state lines (§3.3), messages (§3.2).
 -/
@@ -90,8 +91,7 @@ def World.emitState (w : World) : World :=
   ((w.emit (stateLine w)).emit (handleLine w)).emit (capLine w)
 
 /-- QoS 0 PUBLISH of a reply publication on the side session (70000-byte arena). -/
-def sidePublish (topic : Bytes) (props : Properties) : String :=
-  let h : PublishHeader := { topic := topic, packetId := none, props := props, retain := false, qos := 0, dup := false }
+def sidePublish (h : PublishHeader) : String :=
   match encodePublishWithOffset 70000 h (.bytes [0x52]) with
   | .ok (_, pkt) => hex pkt
   | .error e => "err " ++ World.errName (match e with
@@ -113,25 +113,21 @@ def msgLines (topic payload : Bytes) (qos : Nat) (retain : Bool) (block : Bytes)
     | some bs => hex bs
     | none => "none"
   let iterS := if it.isEmpty then "-" else joinWith ";" (it.map optPropToString)
-  let base (_t : Bytes) : Properties :=
-    match cd with
-    | some c => (Properties.slice []).withCorrelationData c
-    | none => Properties.slice []
-  let reply := match rt with
-    | some t => sidePublish t (base t)
+  let target := responseTarget block
+  let reply := match target with
+    | some t => sidePublish t.publication
     | none => "none"
-  let replyp := match rt with
-    | some t => sidePublish t ((base t).withProperties [kvProp])
+  let replyp := match target with
+    | some t => sidePublish (t.publication.withProperties [kvProp])
     | none => "none"
   let owned := ownedSizes.map fun (tc, cc) =>
     s!"owned {tc}/{cc} " ++
-    match rt with
+    match target with
     | none => "none"
     | some t =>
-      if t.length > tc then "err" else
-      match cd with
-      | some c => if c.length > cc then "err" else s!"ok {hex t} {hex c}"
-      | none => s!"ok {hex t} none"
+      match t.toOwned tc cc with
+      | none => "err"
+      | some o => s!"ok {hex o.topic} {optHex o.correlationData}"
   [s!"msg topic={hex topic} payload={hex payload} qos={qos} retain={if retain then 1 else 0} props={hex block} iter={iterS} rt={optHex rt} cd={optHex cd}",
    s!"reply {reply}", s!"replyp {replyp}"] ++ owned ++ [s!"ownedpub {replyp}"]
 
